@@ -7,7 +7,7 @@ MCMethods == {"GET", "POST", "get"}
 MCBudgets == {0, 1, 2}
 MCOkTail == {S("ok", "cl", "-")}
 MCSteps == {S("ok", "cl", "-"), S("ok_connclose", "-", "-"), S("ok_surplus", "cl", "-"), S("ok_closedelim", "-", "-"),
-            S("ok_then_fin", "-", "-"), S("refused", "-", "-"), S("acc_rst", "-", "-"), S("send_fail", "-", "zero"),
+            S("ok_then_fin", "-", "-"), S("ok_surplus", "cl", "h_bs"), S("ok_latesurplus", "cl", "h_b_s"), S("ok_idle", "stale", "-"), S("refused", "-", "-"), S("acc_rst", "-", "-"), S("send_fail", "-", "zero"),
             S("req_close", "-", "first"), S("full_close", "-", "-"), S("silence", "-", "-"),
             S("resp_close", "cl", "body"), S("bad", "cl_te", "-")}
 =============================================================================
